@@ -161,7 +161,7 @@ func (s *SimAWS) SetDesiredCapacity(in *autoscaling.SetDesiredCapacityInput) (*a
 	}
 	fail := s.J.Hit("set_desired", a.Group)
 	v := aws.Int64Value(in.DesiredCapacity)
-	c := Call{Op: "set_desired", G: a.Group, A: int(v), B: int(a.Desired)}
+	c := Call{Op: "set_desired", G: a.Group, N: s.J.CurG(), A: int(v), B: int(a.Desired)}
 	switch {
 	case fail:
 		c.S = "injected"
@@ -206,6 +206,7 @@ func (s *SimAWS) TerminateInstanceInAutoScalingGroup(in *autoscaling.TerminateIn
 		c.G, c.S = owner.Group, "min"
 	default:
 		c.G, c.Ok = owner.Group, true
+		c.B = b2i(owner.Group == s.J.CurG())
 		if dec {
 			owner.Desired--
 		}
